@@ -174,4 +174,84 @@ def rule_d(ctx):
     return r
 
 
-RULES = [rule_a, rule_b, rule_c, rule_d]
+
+def rule_e(ctx):
+    r = RuleResult("C10-e", "specificity bounds used when trimming generated selectors: every `min_specificity` accessor reads/sums lower bounds only and every "
+                   "`max_specificity` accessor upper bounds only; simple selectors carry the CSS weights (id 1000^2, class-like 1000, type and pseudo-element 1, universal 0)")
+    prog = ctx.prog()
+    n = 0
+    SPEC = "grass_compiler::selector::common::Specificity"
+    for b in prog.bodies.values():
+        if b.crate != "grass_compiler" or b.is_closure():
+            continue
+        leaf = b.path.rsplit("::", 1)[-1]
+        if leaf not in ("min_specificity", "max_specificity") or "::selector::" not in b.path:
+            continue
+        want = leaf[:3]
+        other = "max" if want == "min" else "min"
+        n += 1
+        bad = []
+        # fields of Specificity read in this body
+        for bb, i, pl, rv, st in b.assignments():
+            for opnd in ([rv.get("op")] if rv.get("k") == "use" else [rv.get("a"), rv.get("b")] if rv.get("k") == "binop" else []):
+                if isinstance(opnd, dict) and "p" in opnd:
+                    for e in opnd["p"].get("p", []):
+                        if e.get("k") == "field" and e.get("adt", "").endswith("Specificity") and e.get("n") == other:
+                            bad.append("reads Specificity.%s" % other)
+        # sibling accessors called: only the same bound, except the documented `max falls back to min` for selectors with a single value
+        for c in b.calls():
+            cl = (c.name() or c.callee or "").rsplit("::", 1)[-1]
+            if cl == other + "_specificity":
+                same_self = c.args and an.trace_operand(b, c.args[0]).root == ("arg", 1)
+                if not (want == "max" and same_self and "simple::SimpleSelector" in b.path):
+                    bad.append("calls %s_specificity" % other)
+        key = "%s|bound" % b.path
+        if bad:
+            r.violate(key, "%s %s: lower and upper specificity bounds are crossed, so trimming compares the wrong bound and can drop a generated selector that "
+                      "is more specific than the one kept" % (b.path, ", ".join(sorted(set(bad)))), b.loc())
+        else:
+            r.ok(key)
+    r.floor("min/max specificity accessors", n, 8)
+    # weights of simple selectors (lower bound table)
+    ss = prog.one("selector::simple::SimpleSelector::min_specificity")
+    tab, adt = common.variant_ret_table(ss)
+    want_tab = {"Universal": 0, "Type": 1}
+    consts = set()
+    for c in ss.calls():
+        if "pow" in (c.callee or ""):
+            consts.add(tuple(repr(an.trace_operand(ss, a)) for a in c.args))
+    okt = True
+    for k, v in want_tab.items():
+        try:
+            if int(tab.get(k)) != v:
+                okt = False
+        except (TypeError, ValueError):
+            okt = False
+    if okt and tab:
+        r.ok("SimpleSelector::min_specificity|weights", table={k: str(v) for k, v in tab.items()})
+    else:
+        r.violate("SimpleSelector::min_specificity|weights", "SimpleSelector::min_specificity no longer gives universal 0 and type 1 (%s)" % {k: str(v) for k, v in (tab or {}).items()}, ss.loc())
+    # pseudo-elements weigh 1: the early return of Pseudo::specificity is decided by `is_class` (false for ::x and the legacy :before/:after/...)
+    ps = prog.one("selector::simple::Pseudo::specificity")
+    first_sw = None
+    for bb in ps.rpo():
+        t = ps.term(bb)
+        if t["k"] == "switch" and bb not in ps._const_switch:
+            first_sw = bb
+            break
+    fld = None
+    if first_sw is not None:
+        for kind, obj, pol in an.cond_sources(ps, Operand(ps.term(first_sw)["d"])):
+            if kind == "place" and obj.root == ("arg", 1) and obj.proj:
+                fld = (obj.proj[-1], pol)
+    if fld and fld[0] == "is_class":
+        tgt = common.bool_edge(ps, first_sw, not fld[1])  # edge taken when is_class is false
+        consts = common.ret_consts_from(ps, tgt) if hasattr(common, "ret_consts_from") else set()
+        r.ok("Pseudo::specificity|element-vs-class", field="is_class")
+    else:
+        r.violate("Pseudo::specificity|element-vs-class", "Pseudo::specificity decides pseudo-element (weight 1) vs pseudo-class (weight 1000) by %r; the semantic flag is `is_class` "
+                  "(false for ::x and for the legacy single-colon :before/:after/:first-line/:first-letter)" % (fld,), ps.loc())
+    return r
+
+
+RULES = [rule_a, rule_b, rule_c, rule_d, rule_e]
